@@ -11,8 +11,8 @@ import (
 
 func init() {
 	register(&propDef{
-		id:  "C09",
-		run: runC09,
+		id:          "C09",
+		run:         runC09,
 		explanation: "Static typestate/pairing analysis (path-sensitive, on SSA) of everything a failing or finishing operation must give back: the write-lock token (a capacity-1 channel) against a reviewed per-function exit contract, every sync.Mutex/RWMutex in the engine packages, the internally opened large-batch transaction, and locks held across the compaction exit-panic protocol; plus an exhaustive inventory of every blocking channel operation in package leveldb (each must be a select with a close/timeout case or a reviewed rendezvous), the acknowledge-on-exit epilogues of the background loops, and the order of Close. Each clause is a structural necessary condition: breaking it gives a schedule/fault position at which some call blocks forever. Liveness itself (that waits are eventually signalled, fairness) is NOT decided.",
 		notCovered:  "progress under fair scheduling; that every wait is eventually signalled; lock-order cycles across goroutines other than the cache callback edge (C17.3)",
 		assumptions: []string{"sync.Mutex is not re-entrant; a capacity-1 channel send blocks while the token is out", "the reviewed rendezvous table (plain sends/receives) in rules_c09.go"},
@@ -23,19 +23,19 @@ var lockPkgs = []string{"leveldb", "leveldb/cache", "leveldb/memdb", "leveldb/ta
 
 // reviewed plain (non-select) blocking channel operations in package leveldb
 var reviewedPlainOps = map[string]string{
-	"(*leveldb.DB).Close|send|leveldb.DB.writeLockC":              "terminal acquire, after closeC was closed and the open transaction discarded; every holder releases (token contracts)",
-	"(*leveldb.session).commit$1|send|leveldb.session.abandon":    "refLoop receives abandon in every iteration until session.close, which runs after all committers have exited",
-	"(leveldb.cAuto).ack|send|leveldb.cAuto.ackC":                 "ack to a waiter; protected by recover because the waiter closes the channel when it gives up",
-	"(leveldb.cRange).ack|send|leveldb.cRange.ackC":               "as cAuto.ack",
-	"(*leveldb.DB).unlockWrite|send|leveldb.DB.writeAckC":         "each merged writer is already committed to receiving its result (C10.5)",
-	"(*leveldb.DB).unlockWrite|send|leveldb.DB.writeMergedC":      "the overflowed writer is already committed to receiving the reply (C10.3)",
-	"(*leveldb.DB).writeLocked|send|leveldb.DB.writeMergedC":      "the requester is committed to `<-writeMergedC` right after its send was taken",
-	"(*leveldb.DB).Write|recv|leveldb.DB.writeMergedC":            "the leader that took the request replies exactly once (C10.3)",
-	"(*leveldb.DB).Write|recv|leveldb.DB.writeAckC":               "the leader acks every merged writer in unlockWrite on every exit (C10.1/C10.2)",
-	"(*leveldb.DB).putRec|recv|leveldb.DB.writeMergedC":           "as Write",
-	"(*leveldb.DB).putRec|recv|leveldb.DB.writeAckC":              "as Write",
-	"(*leveldb.session).refLoop|recv|time.Timer.C":                "initial tick of time.NewTimer(0)",
-	"(*leveldb.session).refLoop|send|?":                           "reply on the test-only fileRefCh request channel",
+	"(*leveldb.DB).Close|send|leveldb.DB.writeLockC":           "terminal acquire, after closeC was closed and the open transaction discarded; every holder releases (token contracts)",
+	"(*leveldb.session).commit$1|send|leveldb.session.abandon": "refLoop receives abandon in every iteration until session.close, which runs after all committers have exited",
+	"(leveldb.cAuto).ack|send|leveldb.cAuto.ackC":              "ack to a waiter; protected by recover because the waiter closes the channel when it gives up",
+	"(leveldb.cRange).ack|send|leveldb.cRange.ackC":            "as cAuto.ack",
+	"(*leveldb.DB).unlockWrite|send|leveldb.DB.writeAckC":      "each merged writer is already committed to receiving its result (C10.5)",
+	"(*leveldb.DB).unlockWrite|send|leveldb.DB.writeMergedC":   "the overflowed writer is already committed to receiving the reply (C10.3)",
+	"(*leveldb.DB).writeLocked|send|leveldb.DB.writeMergedC":   "the requester is committed to `<-writeMergedC` right after its send was taken",
+	"(*leveldb.DB).Write|recv|leveldb.DB.writeMergedC":         "the leader that took the request replies exactly once (C10.3)",
+	"(*leveldb.DB).Write|recv|leveldb.DB.writeAckC":            "the leader acks every merged writer in unlockWrite on every exit (C10.1/C10.2)",
+	"(*leveldb.DB).putRec|recv|leveldb.DB.writeMergedC":        "as Write",
+	"(*leveldb.DB).putRec|recv|leveldb.DB.writeAckC":           "as Write",
+	"(*leveldb.session).refLoop|recv|time.Timer.C":             "initial tick of time.NewTimer(0)",
+	"(*leveldb.session).refLoop|send|?":                        "reply on the test-only fileRefCh request channel",
 }
 
 func runC09(p *Prog, r *Report) {
